@@ -232,7 +232,7 @@ impl<'c, W: WorldDriver> Session<'c, W> {
                 return Err(self.fail(&["C17"], "events-world-destroyed", format!("World::iter_destroyed() yields {} handles {:?}, expected the union over archetypes: {} handles {:?}", wd.len(), wd, all_d.len(), all_d)));
             }
             if let Some(e) = hint_err {
-                return Err(self.fail(&["C17"], "events-size-hint", format!("world-level event iterator: {}", e)));
+                return Err(self.fail(&["C17"], "events-iterator-contract", format!("world-level event iterator: {}", e)));
             }
             if nonempty >= 2 && empty >= 1 {
                 self.label("events_mixed_empty_nonempty");
